@@ -178,8 +178,8 @@ def run(tier: str) -> int:
         # exactly the hooks of a plain parse, for visible rules only
         # (no apply<> / if_apply<> rules here: their action classes are called with every state, also the one state_control<> appends)
         profiles.random_profile('cov', False, True, 8, 50, ORACLES, actions_mode='throw', racts='off',
-                                inputs=profiles.inputs_exhaustive(4, 6, cap_q=120, cap_t=700), per_tu=2,
-                                configs=lambda g, root, tier: [Config(root, 1, 'o', 'lf_crlf', 0, uw, 0, 0, 0, 1) for uw in (1, 0)]),   # parse() defaults: apply_mode::action, rewind_mode::optional
+                                inputs=profiles.inputs_exhaustive(4, 6, cap_q=60, cap_t=400), per_tu=2,
+                                configs=lambda g, root, tier: [Config(root, 1, 'o', 'lf_crlf', 0, uw, 0, 0, 0, cv) for uw in (1, 0) for cv in (1, 2, 3)]),   # parse() defaults: apply_mode::action, rewind_mode::optional
     ]
     return engine.run_engine('C08', tier, ['PegtlVerif.Props.C08'], ps,
                              extra=lambda v, cov, rng: coverage_part(v, cov, rng, tier))
